@@ -58,9 +58,9 @@ class C07(runner.Check):
 			"rule are wrapped callables consulting the fault plan"],
 	}
 	tiers = {
-		"quick": {"legs": [("enum", 400), ("hist", 500)], "wall_cap_s": 900,
+		"quick": {"legs": [("enum", 1000), ("hist", 1400)], "wall_cap_s": 900,
 			"chunk": 10},
-		"thorough": {"legs": [("enum", 12000), ("hist", 12000)], "wall_cap_s": 5400,
+		"thorough": {"legs": [("enum", 40000), ("hist", 40000)], "wall_cap_s": 5400,
 			"chunk": 40},
 	}
 
